@@ -1,5 +1,4 @@
 import WK.Proofs.C26_Header
-import WK.Proofs.C26_Pending
 /-
   C26 — Node transport frames and RPC responses are correctly correlated.
 
@@ -226,150 +225,6 @@ theorem c26_frame_roundtrip (h : Header) (body rest : Bytes) (max : Int) (hm : G
         intro hx; rw [List.length_append] at hx; omega
       have h4 : ¬ (body.length + rest.length < body.length) := by omega
       simp [hz, h4, hl]
-
-/-! ## Part 2 — RPC correlation: the PendingTable LTS (pending.go), any number of callers,
-     any interleaving of the atomic regions (`Reachable S`, `S` = shard count > 0) -/
-
-/-- extracted facts the model relies on: conn.Call takes the id from the connection's atomic
-    counter and puts that id on the wire, uses a private buffered(1) channel, stores it before
-    the request can leave; the read loop completes by the response frame's own request id. -/
-theorem c26_call_facts : callIdFromAtomicCounter = true ∧ callChannelBuffered1 = true ∧
-    callStoreBeforeSend = true ∧ completeKeyedByFrameRequestID = true := by decide
-
-/-- **own_response**: whatever a caller receives is a response to its own request id
-    (or a terminal error), and the same holds for anything still on its way to it. -/
-theorem c26_own_response (S : Nat) (hS : 0 < S) (st : PT) (h : Reachable S st) (c : Nat) :
-    (∀ t n, st.pc c = .got (.ok t n) → t = c) ∧
-    (∀ t n, st.chan c = some (.ok t n) → t = c) ∧
-    (∀ t n, Resp.ok t n ∈ st.inflight c → t = c) := by
-  have hp := (inv_reachable S hS st h).per c
-  refine ⟨fun t n hg => (hp.got _ hg).2, fun t n hc => hp.tagChan _ hc, fun t n hi => hp.tagInflight _ hi⟩
-
-/-- responses a caller has taken out of its channel (0 or 1) -/
-def PT.received (st : PT) (c : Nat) : Nat :=
-  match st.pc c with
-  | .got _ => 1
-  | _ => 0
-
-/-- **at_most_one**: over the whole life of a call at most one response exists for it — counting
-    its table entry (a response still to come), sends in flight, its channel and what it already
-    received; consequently no non-blocking send to a caller is ever dropped. -/
-theorem c26_at_most_one (S : Nat) (hS : 0 < S) (st : PT) (h : Reachable S st) (c : Nat) :
-    st.cnt c + st.received c ≤ 1 ∧ st.dropped c = 0 := by
-  have hp := (inv_reachable S hS st h).per c
-  refine ⟨?_, hp.noDrop⟩
-  unfold PT.received
-  cases hpc : st.pc c with
-  | idle => have := hp.idle hpc; simp; omega
-  | waiting => have := hp.waiting hpc; simp; omega
-  | got r => have := (hp.got r hpc).1; simp; omega
-  | gaveUp => have := (hp.gaveUp hpc).1; simp; omega
-
-/-- closeErr never changes once set (first FailAll wins) -/
-theorem closed_stable (S : Nat) (st st' : PT) (l : Label) (e : Nat) (hc : st.closed = some e)
-    (hs : st.step S l = some st') : st'.closed = some e := by
-  cases l <;> simp only [PT.step] at hs
-  case store c =>
-    split at hs; · cases hs
-    rw [hc] at hs; simp only at hs; cases hs; first | exact hc | rfl
-  case completeRemove i n => split at hs <;> cases hs <;> exact hc
-  case deliver c =>
-    split at hs; · cases hs
-    split at hs <;> cases hs <;> exact hc
-  case delete c => split at hs; · cases hs
-                   cases hs; exact hc
-  case recv c =>
-    split at hs; · cases hs
-    split at hs; · cases hs
-    cases hs; exact hc
-  case failBegin e' => split at hs; · cases hs
-                       cases hs; simp [hc]
-  case failShard =>
-    split at hs; · cases hs
-    split at hs; · cases hs
-    cases hs; exact hc
-  case failEnd =>
-    split at hs
-    · split at hs
-      · cases hs; exact hc
-      · cases hs
-    · cases hs
-
-/-- **fail_all_terminal**: once FailAll has closed the table with error `e`
-    (1) the close error never changes, (2) a later Store adds no entry and owes the caller
-    exactly that error, (3) when the sweep is over the table is empty, and (4) at quiescence
-    (no sweep, no send in flight) every caller still waiting has something in its channel —
-    its own response or a terminal error — so nobody waits forever on a dead connection. -/
-theorem c26_fail_all_terminal (S : Nat) (hS : 0 < S) (st : PT) (h : Reachable S st) (e : Nat)
-    (hc : st.closed = some e) :
-    (∀ l st', st.step S l = some st' → st'.closed = some e) ∧
-    (∀ c st', st.step S (.store c) = some st' → st'.inflight c = [.err e] ∧ st'.inTable c = false) ∧
-    (st.sweep = none → ∀ c, st.inTable c = false) ∧
-    (st.sweep = none → (∀ c, st.inflight c = []) → ∀ c, st.pc c = .waiting → ∃ r, st.chan c = some r) := by
-  have hinv := inv_reachable S hS st h
-  refine ⟨fun l st' hs => closed_stable S st st' l e hc hs, ?_, ?_, ?_⟩
-  · intro c st' hs
-    simp only [PT.step] at hs
-    split at hs; · cases hs
-    rename_i hen
-    have hidle : st.pc c = .idle := Classical.not_not.mp (fun x => hen (Or.inl x))
-    have h0 := (hinv.per c).idle hidle
-    rw [hc] at hs; simp only at hs; cases hs
-    have hfl : st.inflight c = [] := by
-      cases hh : st.inflight c with
-      | nil => rfl
-      | cons a b => simp [PT.cnt, hh] at h0
-    have htab : st.inTable c = false := by
-      cases hh : st.inTable c with
-      | false => rfl
-      | true => simp [PT.cnt, hh] at h0
-    exact ⟨by simp [upd, hfl], htab⟩
-  · intro hsw c
-    cases hh : st.inTable c with
-    | false => rfl
-    | true =>
-      rcases hinv.tableOpen c hh with hcl | ⟨e', s, hs', _⟩
-      · rw [hc] at hcl; cases hcl
-      · rw [hsw] at hs'; cases hs'
-  · intro hsw hfl c hw
-    have h1 := (hinv.per c).waiting hw
-    have htab : st.inTable c = false := by
-      cases hh : st.inTable c with
-      | false => rfl
-      | true =>
-        rcases hinv.tableOpen c hh with hcl | ⟨e', s, hs', _⟩
-        · rw [hc] at hcl; cases hcl
-        · rw [hsw] at hs'; cases hs'
-    cases hch : st.chan c with
-    | some r => exact ⟨r, rfl⟩
-    | none => simp [PT.cnt, htab, hfl c, hch] at h1
-
-/-- a concrete interleaving (non-vacuity): caller 5 stores, the reader completes id 5, the send is
-    executed, FailAll closes the table meanwhile, the caller receives its own response -/
-def demoTrace : List Label :=
-  [.store 5, .store 6, .completeRemove 5 77, .failBegin 9, .deliver 5, .failShard, .failShard, .deliver 6, .failEnd, .recv 5, .recv 6, .store 7, .deliver 7, .recv 7]
-
-def runTrace (S : Nat) : PT → List Label → Option PT
-  | st, [] => some st
-  | st, l :: ls => match st.step S l with
-    | some st' => runTrace S st' ls
-    | none => none
-
-theorem reachable_run (S : Nat) (st : PT) (h : Reachable S st) : ∀ (ls : List Label) (st' : PT),
-    runTrace S st ls = some st' → Reachable S st' := by
-  intro ls
-  induction ls generalizing st with
-  | nil => intro st' hr; simp [runTrace] at hr; subst hr; exact h
-  | cons l ls ih =>
-    intro st' hr
-    simp only [runTrace] at hr
-    split at hr
-    · rename_i st1 hs; exact ih st1 (Reachable.step l h hs) st' hr
-    · cases hr
-
-example : ∃ st, runTrace 2 PT.init demoTrace = some st ∧ st.pc 5 = .got (.ok 5 77) ∧ st.pc 6 = .got (.err 9) ∧
-    st.pc 7 = .got (.err 9) ∧ st.closed = some 9 := by
-  refine ⟨_, rfl, ?_, ?_, ?_, ?_⟩ <;> decide
 
 -- non-vacuity
 example : Valid ⟨3, 3, 42, 99, 1234⟩ 4096 := by decide
